@@ -722,6 +722,20 @@ func (vc *VC) newFrame(fi *FuncInfo, ct *Contract) *frame {
 	if fi.Decl.Body != nil {
 		numberLoops(fr, fi.Decl.Body, 0)
 		fr.specPos = fi.Decl.Body.Lbrace + 1
+		fr.stmtOrd = map[ast.Stmt]int{}
+		n := 0
+		ast.Inspect(fi.Decl.Body, func(nd ast.Node) bool {
+			if _, isLit := nd.(*ast.FuncLit); isLit {
+				return false
+			}
+			if st, ok := nd.(ast.Stmt); ok {
+				if _, isBlock := st.(*ast.BlockStmt); !isBlock {
+					n++
+					fr.stmtOrd[st] = n
+				}
+			}
+			return true
+		})
 	}
 	return fr
 }
